@@ -217,7 +217,7 @@ def plan(prop, tier, seed):
         fam(n(60, 1500), scen.inject_session, "inject")
         data(n(5, 40), big_groups=True)
     elif prop == "C10":
-        data(n(80, 1200), with_close=True, updates=True); fam(n(40, 600), scen.close_burst_session, "close-burst")
+        data(n(80, 1200), with_close=True, updates=True); fam(n(40, 600), scen.close_burst_session, "close-burst"); fam(n(6, 100), scen.many_channels_session, "many-channels")
     elif prop == "C11":
         data(n(30, 400)); data(n(15, 150), with_close=True, updates=True); fam(n(10, 100), scen.large_session, "large"); fam(n(12, 200), scen.unit_session, "unit")
         fam(n(25, 400), scen.inject_session, "inject")
@@ -241,6 +241,7 @@ def plan(prop, tier, seed):
         for _ in range(n(20, 300)):
             G.append([("hs", scen.handshake_session(S(), hostile=False))])
         fam(n(15, 200), scen.hostile_session, "hostile"); fam(n(15, 200), scen.bad_group_session, "bad-groups")
+        fam(n(10, 150), scen.many_channels_session, "many-channels")
     elif prop == "C17":
         for _ in range(n(12, 150)):
             G.append(twin_fill(S(), "data"))
